@@ -107,10 +107,24 @@ func settle(base int) bool {
 	return runtime.NumGoroutine() <= base
 }
 
+var parseHangs int
+
 func parseOne(s string) (string, *proto.Query) {
 	var q *proto.Query
 	var err error
-	_, ok := guard(func() { q, err = queryparser.ParseQuery(s) })
+	ok := true
+	done := make(chan struct{})
+	go func() {
+		defer close(done)
+		_, ok = guard(func() { q, err = queryparser.ParseQuery(s) })
+	}()
+	select {
+	case <-done:
+	case <-time.After(15 * time.Second):
+		// ParseQuery does not return: the stuck goroutine is abandoned
+		parseHangs++
+		return "HANG", nil
+	}
 	switch {
 	case !ok:
 		return "PANIC", nil
@@ -138,7 +152,15 @@ func parseCmd(args []string) {
 		case "P":
 			id := t.next()
 			s := t.str()
+			if parseHangs >= 3 {
+				pr("P %s SKIPPED-AFTER-HANGS\n", id)
+				continue
+			}
 			res, _ := parseOne(s)
+			if res == "HANG" {
+				base = runtime.NumGoroutine() // the abandoned goroutines stay
+				leaked = 0
+			}
 			leak := ""
 			if leaked < 40 && !settle(base+leaked) {
 				n := runtime.NumGoroutine() - base - leaked
